@@ -279,6 +279,13 @@ def gen_mirror(runner, tier, seed):
         for p in (peer4(), peer6()):
             for cp in (True, False):
                 fr.append(p.udp(r.randrange(65536), dport, stun(txid=bytes(r.randrange(256) for _ in range(16)), attrs=stun_change_request(r.random() < 0.5, cp))))
+    # several CHANGE-REQUEST attributes in one request: still "the next port", never further
+    for dport in (3478, 65534, 65535):
+        for p in (peer4(), peer6()):
+            for flags in ((True, True), (True, True, True), (False, False), (True, False), (False, True)):
+                crs = b"".join(stun_change_request(r.random() < 0.5, cp) for cp in flags)
+                fr.append(p.udp(r.randrange(65536), dport, stun(txid=rb(r, 16), attrs=crs)))
+                fr.append(p.udp(r.randrange(65536), dport, stun(txid=STUN_MAGIC + rb(r, 12), attrs=stun_attr(0x8022, rb(r, 252)) + crs)))
     s.send(fr)
     flows = []
     for dport in (0, 3478, 65535):
